@@ -170,15 +170,15 @@ fn amount_of(op: &Value, cash: f64, liq: f64, total: f64) -> f64 {
         // relative to the portfolio's liquidation value / total value (they differ by the selling costs): the band
         // in which a request is coverable gross but not net
         Some("liq_eq") => liq,
-        Some("liq_up") => f64::from_bits(if liq > 0.0 { liq.to_bits() + 1 } else { liq.to_bits().wrapping_sub(1) }),
-        Some("liq_down") => f64::from_bits(if liq > 0.0 { liq.to_bits() - 1 } else { liq.to_bits() + 1 }),
+        Some("liq_up") => f64::from_bits(if liq > 0.0 { liq.to_bits().wrapping_add(1) } else { liq.to_bits().wrapping_sub(1) }),
+        Some("liq_down") => f64::from_bits(if liq > 0.0 { liq.to_bits().wrapping_sub(1) } else { liq.to_bits().wrapping_add(1) }),
         Some("liq_mid_total") => (liq + total) / 2.0,
         Some("total_eq") => total,
         Some("liq_half") => liq / 2.0,
         Some("eq") => cash,
-        Some("ulp_up") => f64::from_bits(if cash > 0.0 { cash.to_bits() + 1 } else { cash.to_bits().wrapping_sub(1) }),
-        Some("ulp_down") => f64::from_bits(if cash > 0.0 { cash.to_bits() - 1 } else { cash.to_bits() + 1 }),
-        Some("ulps_up_8") => f64::from_bits(if cash > 0.0 { cash.to_bits() + 8 } else { cash.to_bits().wrapping_sub(8) }),
+        Some("ulp_up") => f64::from_bits(if cash > 0.0 { cash.to_bits().wrapping_add(1) } else { cash.to_bits().wrapping_sub(1) }),
+        Some("ulp_down") => f64::from_bits(if cash > 0.0 { cash.to_bits().wrapping_sub(1) } else { cash.to_bits().wrapping_add(1) }),
+        Some("ulps_up_8") => f64::from_bits(if cash > 0.0 { cash.to_bits().wrapping_add(8) } else { cash.to_bits().wrapping_sub(8) }),
         Some("plus_1e-9") => cash + 1e-9,
         Some("plus_1e-7") => cash + 1e-7,
         Some("plus_1e-3") => cash + 1e-3,
